@@ -433,6 +433,65 @@ def check_lift_vs_execution(chk, F):
     chk.floor(rid, "asset / lock cases", n_cases, 300)
 
 
+# ---- R07.7 the guard in front of every lift ---------------------------------------------------------------------------------------
+
+def check_lift_guard(chk, F):
+    import itertools
+    from ..interp import NONE
+    rid = "R07.7"
+    chk.rule(rid, "Miniscript::lift_check (evaluated through within_resource_limits, ScriptContext::check_local_validity and "
+                  "has_mixed_timelocks, in every script context) refuses a script exactly when one of the context's four "
+                  "resource / validity checks - global consensus, global policy, and the satisfaction-time local consensus "
+                  "and local policy limits - fails (BranchExceedResourceLimits) or its time-lock summary records a path that "
+                  "mixes units (HeightTimelockCombination): a script some witness cannot exercise is not lifted")
+    try:
+        lc = [q for q in F.fns if q.endswith("::lift_check") and "Miniscript" in q][0]
+    except IndexError:
+        chk.fail(rid, "anchor", "Miniscript::lift_check not found", kind="unanalysable")
+        return
+    chk.saw(lc)
+    PARTS = ["check_global_consensus_validity", "check_global_policy_validity", "check_local_consensus_validity",
+             "check_local_policy_validity"]
+    CTXS = ["Legacy", "Segwitv0", "Tap", "BareCtx"]
+    TLI = [a for a in F.adts if a.endswith("extra_props::TimelockInfo")]
+    if len(TLI) != 1:
+        chk.fail(rid, "anchor|TimelockInfo", "TimelockInfo not found", kind="unanalysable")
+        return
+    n = 0
+    for ctx in CTXS:
+        ctxp = "miniscript::context::" + ctx
+        failing = set()
+        hooks = {}
+        for part in PARTS:
+            def hook(m_, a, c, part=part):
+                return err(Term("limit", part)) if part in failing else ok(())
+            hooks["miniscript::context::ScriptContext::" + part] = hook
+            hooks["<%s as miniscript::context::ScriptContext>::%s" % (ctxp, part)] = hook
+        m = Machine(F, strict=True, hooks=hooks)
+        bad = []
+        try:
+            for fails, mixed in itertools.product([()] + [(p_,) for p_ in PARTS] + [tuple(PARTS)], (False, True)):
+                failing.clear()
+                failing.update(fails)
+                tli = Adt(TLI[0], "TimelockInfo", {"csv_with_height": mixed, "csv_with_time": mixed, "cltv_with_height": False,
+                                                   "cltv_with_time": False, "contains_combination": mixed})
+                msv = Adt(model.MS, "Miniscript", {"node": Term("node"), "ty": Term("ty"), "phantom": (),
+                                                   "ext": Adt("miniscript::types::extra_props::ExtData", "ExtData", {"timelock_info": tli})})
+                r = m.call_callee({"def": lc, "resolved": lc, "name": "lift_check", "targs": ["PK", ctxp],
+                                   "self_ty": "miniscript::private::Miniscript<PK, %s>" % ctxp}, [msv])
+                n += 1
+                want = "BranchExceedResourceLimits" if fails else ("HeightTimelockCombination" if mixed else "Ok")
+                got = "Ok" if r.variant == "Ok" else repr(r.fields["0"])
+                if want not in got:
+                    bad.append("failing checks %r, mixed time locks %s: %s, expected %s" % (list(fails), mixed, got, want))
+            chk.obligation(rid, not bad, ctx, "%d case(s); first: %s" % (len(bad), bad[0] if bad else ""), where="src/policy/mod.rs", detail=bad[:8])
+        except Unsupported as e:
+            chk.fail(rid, "unanalysable:" + ctx, "unanalysable: %s" % e, where=e.where, kind="unanalysable")
+        except Panic as e:
+            chk.fail(rid, ctx, "panic: %s" % e, where="src/policy/mod.rs")
+    chk.floor(rid, "cases", n, 48)
+
+
 def run(chk):
     F = chk.facts()
     chk.explanation = (
@@ -456,5 +515,6 @@ def run(chk):
     # evaluate through the analyser's model: the model is the source's behaviour (rule shared with C20)
     from . import c20
     from ..report import RuleAlias
+    chk.guard("R07.7", "lift-guard", check_lift_guard, chk, F)
     chk.guard("R07.6", "tree-iterators", c20.check_tree_iterators, RuleAlias(chk, {"R20.10": "R07.6"}, "the traversal the "
               "lifts fold over"), F)
